@@ -139,6 +139,14 @@ impl<T: TactKeyProvider> TactKeyProvider for UnifiedKeyStore<T> {
         self.backend.key_count()
     }
 
+    fn is_empty(&self) -> Result<bool, CryptoError> {
+        self.backend.is_empty()
+    }
+
+    fn contains_key(&self, id: u64) -> Result<bool, CryptoError> {
+        self.backend.contains_key(id)
+    }
+
     fn list_key_ids(&self) -> Result<Vec<u64>, CryptoError> {
         self.backend.list_key_ids()
     }
